@@ -968,6 +968,20 @@ func listenerFuncs(c *Ctx) []*ssa.Function {
 		if root.Signature.Recv() != nil && namedOf(root.Signature.Recv().Type()) == lst {
 			out = append(out, fn)
 			seen[fn] = true
+			continue
+		}
+		// ... handlers that are handed the listener (entries of a dispatch table, closures a factory returns)
+		for _, f := range []*ssa.Function{fn, root} {
+			if seen[fn] || isControl(FnName(root)) {
+				break
+			}
+			for _, prm := range f.Params {
+				if pt, isP := prm.Type().(*types.Pointer); isP && namedOf(pt.Elem()) == lst {
+					out = append(out, fn)
+					seen[fn] = true
+					break
+				}
+			}
 		}
 	}
 	// ... and the free functions of the package they call (decoders moved out of the listener)
